@@ -2,6 +2,7 @@ import ComposeVerif.Ops.Common
 import ComposeVerif.Ops.C07
 import ComposeVerif.Model.EnvLayers
 import ComposeVerif.Spec.EnvLayers
+import ComposeVerif.Model.EnvLayersLoad
 /-! line-protocol ops for C16: `c16.env`, `c16.labels`, `c16.load` (model) and `c16.spec` (specification) -/
 open Lean
 namespace CV.Ops.C16
@@ -72,6 +73,16 @@ def yenvOf (j : Json) : YEnv :=
     | _, _ => .absent
   | _ => .absent
 
+/-- the YAML form of `labels`, if the case gives one (otherwise the typed `labels` as a mapping with values) -/
+def ylabelsOf (j : Json) : YLabels :=
+  match j.getObjVal? "ylabels" with
+  | .ok y =>
+    match y.getObjVal? "list", y.getObjVal? "map" with
+    | .ok (.arr a), _ => .list (a.toList.map itemOfJson)
+    | _, .ok (.arr _) => .map (pairsOpt y "map")
+    | _, _ => .absent
+  | _ => .map ((pairs j "labels").map fun kv => (kv.1, some kv.2))
+
 def serviceOfJson (j : Json) : Str × Service :=
   ((getStr j "name").toList,
    { environment := pairsOpt j "environment"
@@ -110,9 +121,21 @@ def envOp : Handler := fun args =>
 def labelsOp : Handler := fun args =>
   outJson (resolveProjectLabels (fsOf args) (getBool args "discard") ((arr args "services").map serviceOfJson))
 
-/-- both Project methods on the same arguments -/
+/-- both Project methods on the same arguments; with `extra` also `WithServicesEnabled` with the first service's name,
+    without a name, and on the project `WithServicesEnvironmentResolved` returned (only when it returned one) -/
 def resolveOp : Handler := fun args =>
-  Json.mkObj [("env", envOp args), ("labels", labelsOp args)]
+  let penv := penvOf args
+  let fs := fsOf args
+  let svcs := (arr args "services").map serviceOfJson
+  let base := [("env", envOp args), ("labels", labelsOp args)]
+  match getBool args "extra", svcs with
+  | true, (n, _) :: _ =>
+    let twice := match resolveProjectEnv penv fs (getBool args "discard") svcs with
+      | .ok r => [("twice", outJson (withServicesEnabled penv fs [n] r))]
+      | .error _ => []
+    Json.mkObj (base ++ [("enabled", outJson (withServicesEnabled penv fs [n] svcs)),
+                         ("enabled_none", outJson (withServicesEnabled penv fs [] svcs))] ++ twice)
+  | _, _ => Json.mkObj base
 
 /-- model of the environment / label part of a whole load -/
 def loadOp : Handler := fun args =>
@@ -121,7 +144,8 @@ def loadOp : Handler := fun args =>
   let cfg : LoadCfg := { skipNormalization := getBool args "skip_normalization",
                          skipResolveEnvironment := getBool args "skip_resolve_environment",
                          discard := getBool args "discard" }
-  outJson (loadProject cfg penv fs ((arr args "services").map fun j => ((serviceOfJson j).1, yenvOf j, (serviceOfJson j).2)))
+  outJson (loadProjectY cfg penv fs ((arr args "services").map fun j =>
+    ((serviceOfJson j).1, { yenv := yenvOf j, ylabels := ylabelsOf j, svc := (serviceOfJson j).2 })))
 
 /-! ### specification op (direct oracle) -/
 open CV.EnvLayers.Spec
